@@ -229,10 +229,14 @@ func init() {
 		// read command it knew of has finished; a file seen in the limiter afterwards belongs to a later one
 		aggDone := false
 		afterAgg := []string{}
+		cmdsBeforeAgg := 0 // commands received before the aggregator finished (the map command included)
 		for _, e := range events {
 			if e == "aggregate.nomore" {
 				aggDone = true
 				continue
+			}
+			if !aggDone && e == "handler.command" {
+				cmdsBeforeAgg++
 			}
 			if aggDone && strings.HasPrefix(e, "file:") {
 				afterAgg = append(afterAgg, e[5:])
@@ -255,6 +259,6 @@ func init() {
 			}
 		}
 		return map[string]interface{}{"frames": frames, "syn": acked, "closed": closed, "zero_before_cmd": zeroBefore,
-			"late_command": late, "late_from": lateFrom, "late_files": lateFiles, "aggregator_finished": aggDone, "files_after_aggregator": afterAgg, "events": events, "stacks": stacks}, nil
+			"late_command": late, "late_from": lateFrom, "late_files": lateFiles, "aggregator_finished": aggDone, "files_after_aggregator": afterAgg, "commands_before_aggregator_finished": cmdsBeforeAgg, "events": events, "stacks": stacks}, nil
 	}
 }
